@@ -142,6 +142,27 @@ def run(m: Model, r: Report, tier: str) -> None:
                         want_alt = want
                     if arg is None or ast.unparse(arg) not in (want, want_alt):
                         problems.append(f"{resp.name}.{src[1].id} is bound to `{ast.unparse(arg) if arg is not None else None}` but the matcher compares it with {want}")
+                # identifiers the request carries are echoed from the request (or from a value the path condition proves equal to it)
+                from sa.util import path_condition as _pc
+                req_fields = set(stored_fields(m, rc)) | {k_ for c2 in m.mro(rc) for k_ in c2.methods}
+                owner_st = next((s_ for s_ in ast.walk(f.node) if isinstance(s_, ast.stmt) and not isinstance(s_, (ast.If, ast.For, ast.While, ast.Try, ast.With, ast.FunctionDef, ast.AsyncFunctionDef))
+                                 and any(x is n for x in ast.walk(s_))), None)
+                eqs = set()
+                if owner_st is not None:
+                    for t_, pol in _pc(f.node, owner_st):
+                        for c_ in ast.walk(t_):
+                            if pol and isinstance(c_, ast.Compare) and len(c_.ops) == 1 and isinstance(c_.ops[0], ast.Eq):
+                                eqs.add((ast.unparse(c_.left), ast.unparse(c_.comparators[0])))
+                                eqs.add((ast.unparse(c_.comparators[0]), ast.unparse(c_.left)))
+                for pname, arg in bound.items():
+                    cand_fields = [x for x in (pname, pname.rstrip("s"), pname + "s") if x in req_fields]
+                    if not cand_fields or "identifier" not in pname:
+                        continue
+                    at = ast.unparse(arg)
+                    okecho = any(at in (f"request.{x}", f"request.{x}[0]") for x in cand_fields) or any((at, f"request.{x}") in eqs for x in cand_fields)
+                    if not okecho:
+                        problems.append(f"{resp.name}.{pname} is `{at}`, which is not the request's {cand_fields[0]} (nor proven equal to it on this path): the client's matcher refuses the reply "
+                                        "whenever the two differ")
             r.check(not problems, "R1", construct, "; ".join(sorted(set(problems))), loc=f"{f.module.relpath}:{n.lineno}",
                     fact_ok=f"{sorted({x[1].name for x in cands})} for {sorted({x[0].name for x in cands})[:3]}")
             r.check(not arity, "R2", construct, "; ".join(sorted(set(arity))), loc=f"{f.module.relpath}:{n.lineno}")
